@@ -21,7 +21,14 @@ META = {
              "makes the kernel panic in any state reached by any history of messages and replayed headers, provided no accepted header "
              "announces a next validator set of total power 0 (C09_kernel_messages_never_panic_partial; without that proviso the "
              "statement is refuted by a witness: ByzantineMajority(0)); a replayed header panics exactly when its commit proof is for a "
-             "round the mirror has left (known finding, witness replayed on the code on every run). Monitored, not proved: the real "
+             "round the mirror has left (known finding, witness replayed on the code on every run). FULL CLOSURE (Properties/C09KernelX.v): the same "
+             "over histories with crashes after every store write, restarts, round entrances of the state machine (any key), reads of "
+             "both view managers and the local validator's own votes and proposed headers - every operation returns or panics at one "
+             "of seven NAMED sites exactly under a stated decidable guard (replay for an earlier round; entrance into an orphaned / "
+             "unknown round or below the initial height; local vote without keys / for a nil key; empty local action; the model's fuel "
+             "site), start-up never fails, reads and entrances leave the kernel state unchanged (C09X_mstep_total_partial and "
+             "companions; side conditions: admissible peer operations, a well-formed own proposed header - shown necessary). "
+             "Monitored, not proved: the real "
              "mirror under generated histories with replays, a stalling / racing state machine and gossip reader, and under batches of "
              "overlapping messages from CONCURRENT callers some of which give up while the kernel works on their request (process death "
              "or a kernel that stops answering = violation); entrance of a slow state machine into an orphaned round panics (known finding). State-machine panics are "
@@ -580,6 +587,8 @@ def main(argv):
         ctx.proved = c.prove("C09")
         # kernel part: totality of the mirror-kernel model for peer messages (Proofs/MirrorTotal.v)
         ctx.proved = c.prove("C09Kernel") and ctx.proved
+        # ... and over the full closure: crashes, restarts, entrances, reads, local actions (Proofs/MirrorTotalX/M/K.v)
+        ctx.proved = c.prove("C09KernelX") and ctx.proved
     # 3. harness for the real code
     ctx.binary, blog = c.go_build("c09")
     if ctx.binary is None:
